@@ -20,7 +20,7 @@ DT = [0.125, 'sec']
 
 
 def bounds(tier):
-    return {'chain_elements_max': 4 if tier == 'quick' else 5, 'duty_depth': depth(tier),
+    return {'chain_elements_max': 4 if tier == 'quick' else 5, 'duty_depth': depth(tier) if tier == 'quick' else '4 on chains <= 4 elements, 3 on 5-element chains',
             'duty_alphabet': DUTIES, 'loads': LOADS}
 
 
@@ -116,6 +116,8 @@ def run_shard(shard, tier):
     chain_l = [tuple(x) for x in shard['chain']]
     variants = [False, True] if menu.has_worm_drive(chain_l) else [False]
     d = depth(tier)
+    if len(chain_l) + 1 >= 5:
+        d = 3                                   # 5-element chains: depth 3 also in the thorough tier
     first = True
     has_mating = any(lt in ('G', 'W') for lt, _ in chain_l)
     for locking in variants:
